@@ -746,6 +746,19 @@ class _ExprNorm(ast.NodeTransformer):
 
     def visit_IfExp(self, node):
         self.generic_visit(node)
+        # negative tests swap the arms: a if x is None else b -> b if x is not None else a
+        t = node.test
+        flip = None
+        if isinstance(t, ast.UnaryOp) and isinstance(t.op, ast.Not):
+            flip = t.operand
+        elif isinstance(t, ast.Compare) and len(t.ops) == 1:
+            pos = {ast.IsNot: None, ast.Is: ast.IsNot, ast.NotEq: ast.Eq, ast.NotIn: ast.In}.get(type(t.ops[0]))
+            if isinstance(t.ops[0], ast.Is) and not (isinstance(t.comparators[0], ast.Constant) and t.comparators[0].value is None):
+                pos = None
+            if pos is not None:
+                flip = ast.Compare(left=t.left, ops=[pos()], comparators=t.comparators)
+        if flip is not None:
+            node = ast.copy_location(ast.IfExp(test=flip, body=node.orelse, orelse=node.body), node)
         # x if x else y  ->  x or y
         if u(node.test) == u(node.body) and norm.is_reference(node.test):
             return ast.copy_location(ast.BoolOp(op=ast.Or(), values=[node.body, node.orelse]), node)
@@ -956,6 +969,24 @@ def known_defs() -> set[str]:
         p = Path(__file__).with_name("known_defs.json")
         _KNOWN = set(json.loads(p.read_text())) if p.exists() else set()
     return _KNOWN
+
+
+class _StripAnn(ast.NodeTransformer):
+    """`x: T = v` -> `x = v`; a bare declaration `x: T` disappears (annotations of locals have no run-time effect)"""
+    def visit_AnnAssign(self, node):
+        if not isinstance(node.target, ast.Name):
+            return node
+        if node.value is None:
+            return ast.copy_location(ast.Pass(), node)
+        return ast.copy_location(ast.Assign(targets=[node.target], value=node.value), node)
+
+    def visit_ClassDef(self, node):
+        return node
+
+
+def strip_annotations(stmts):
+    out = [_StripAnn().visit(s) for s in stmts]
+    return [s for s in out if not isinstance(s, ast.Pass)] or out[:1]
 
 
 class Canon:
@@ -1175,6 +1206,7 @@ class Canon:
         if key in self.cache:
             return self.cache[key]
         b = [copy.deepcopy(s) for s in real_body(fn)]
+        b = strip_annotations(b)
         # nested function definitions that get inlined are dropped afterwards
         b = lower_matches(b, self._match_args(module))
         b = lift_ifexp(b)
@@ -1200,6 +1232,9 @@ class Canon:
             b = norm.forward_subst(b, pure_calls=_PURE_EXT)
             b = _drop_dead_temps(b)
             b = norm.normalise_loops(b)
+            b2 = norm.fuse_for_over_comp(b, pure_calls=_PURE_EXT)
+            if ast.dump(ast.Module(body=b2, type_ignores=[])) != ast.dump(ast.Module(body=b, type_ignores=[])):
+                b = _drop_dead_temps(norm.forward_subst(b2, pure_calls=_PURE_EXT))
         b = expr_norm(b)
         for s in b:
             ast.fix_missing_locations(s)
